@@ -25,10 +25,14 @@ type pkgInfo struct {
 	funcs map[string]*ast.FuncDecl
 	// package-level const/var initialisers
 	values map[string]ast.Expr
+	// declared types of the package-level consts/vars that have one (`name T = v`)
+	vtypes map[string]ast.Expr
+	// names declared in a `const` block (values also holds `var` initialisers)
+	isConst map[string]bool
 }
 
 func loadPkg(dir string) *pkgInfo {
-	p := &pkgInfo{fset: token.NewFileSet(), files: map[string]*ast.File{}, funcs: map[string]*ast.FuncDecl{}, values: map[string]ast.Expr{}}
+	p := &pkgInfo{fset: token.NewFileSet(), files: map[string]*ast.File{}, funcs: map[string]*ast.FuncDecl{}, values: map[string]ast.Expr{}, vtypes: map[string]ast.Expr{}, isConst: map[string]bool{}}
 	ents, err := os.ReadDir(dir)
 	if err != nil {
 		fail("read dir %s: %v", dir, err)
@@ -53,6 +57,12 @@ func loadPkg(dir string) *pkgInfo {
 						for i, nm := range vs.Names {
 							if i < len(vs.Values) {
 								p.values[nm.Name] = vs.Values[i]
+								if vs.Type != nil {
+									p.vtypes[nm.Name] = vs.Type
+								}
+								if d.Tok == token.CONST {
+									p.isConst[nm.Name] = true
+								}
 							}
 						}
 					}
@@ -163,6 +173,36 @@ func (p *pkgInfo) constString(e ast.Expr) (string, bool) {
 		return p.constString(e.X)
 	}
 	return "", false
+}
+
+// constInt: the value of a package-level CONSTANT declared as a negated integer literal
+// (`name = -1`, `name T = -1`), of no declared type, of type int, or of type diffmatchpatch.Operation
+// (an int8: the value must fit).  Non-negative literals are handled where identifiers are translated.
+func (p *pkgInfo) constNegInt(name string) (int64, bool) {
+	v, ok := p.values[name]
+	if !ok || !p.isConst[name] {
+		return 0, false
+	}
+	u, ok := v.(*ast.UnaryExpr)
+	if !ok || u.Op != token.SUB {
+		return 0, false
+	}
+	bl, ok := u.X.(*ast.BasicLit)
+	if !ok || bl.Kind != token.INT {
+		return 0, false
+	}
+	n, err := strconv.ParseInt(bl.Value, 0, 64)
+	if err != nil {
+		return 0, false
+	}
+	n = -n
+	switch t := p.vtypes[name]; {
+	case t == nil, selName(t) == "int":
+		return n, true
+	case selName(t) == "diffmatchpatch.Operation":
+		return n, n >= -128 && n <= 127
+	}
+	return 0, false
 }
 
 func (p *pkgInfo) fn(name string) *ast.FuncDecl {
